@@ -60,13 +60,21 @@ func (d *rawClientDriver) rev() int {
 }
 
 func (d *rawClientDriver) newLine(r *rawRPC, method string, rev int) string {
-	return fmt.Sprintf("rawc t=0 id=%d kind=new method=%s rev=%d win=65536 md=%s", r.id, method, rev, []string{"-", "a=1", "{}"}[d.rng.Intn(3)])
+	// the window the raw client advertises for the server's sends: it never credits, so only the
+	// standard size or larger; the server's own receive window stays 65536 whatever is said here
+	win := []string{"65536", "65536", "65536", "131072", "1048576", "4294967295"}[d.rng.Intn(6)]
+	return fmt.Sprintf("rawc t=0 id=%d kind=new method=%s rev=%d win=%s md=%s", r.id, method, rev, win,
+		[]string{"-", "a=1", "{}", "grpc-timeout=30S", "a=1;grpc-timeout=2M"}[d.rng.Intn(5)])
 }
 
 func (d *rawClientDriver) Next(w *World, step int) string {
 	rng := d.rng
 	if d.phase == 0 {
 		d.phase = 1
+		if rng.Intn(3) == 0 {
+			// the tunnel itself is opened under a far deadline (one hour of virtual time)
+			return "open t=0 md=who=raw;tdl=1 peer=p0 to=3600000000000"
+		}
 		return "open t=0 md=who=raw peer=p0"
 	}
 	pc, ps := w.pend(0)
@@ -317,12 +325,18 @@ func (d *rawClientDriver) deviation(w *World) string {
 		d.nextID++
 		d.rpcs = append(d.rpcs, r)
 		return fmt.Sprintf("rawc t=0 id=%d kind=new method=%%2Fv.S%%2FBD%d rev=%d win=%s md=-", r.id, r.r, d.rev(), []string{"0", "1", "4294967295"}[rng.Intn(3)])
+	case 16: // an envelope announcing a huge message, then little data (the endpoint must not reserve the announced size)
+		if anyRPC != nil && !anyRPC.dead && anyRPC.cur == 0 {
+			anyRPC.dead = true
+			anyRPC.bytesOut += 10
+			return fmt.Sprintf("rawc t=0 id=%d kind=msg size=%d len=10", anyRPC.id, []int{1 << 30, 3 << 30, 1 << 29}[rng.Intn(3)])
+		}
 	case 15: // grpc-timeout oddities
 		r := &rawRPC{r: d.nextR, id: d.nextID, shape: "BD", first: true}
 		d.nextR++
 		d.nextID++
 		d.rpcs = append(d.rpcs, r)
-		return fmt.Sprintf("rawc t=0 id=%d kind=new method=%%2Fv.S%%2FBD%d rev=%d win=65536 md=grpc-timeout=%s", r.id, r.r, d.rev(), []string{"-5S", "99999999H", "1n", "%2B5S", "5", "S", "123456789S", "0m"}[rng.Intn(8)])
+		return fmt.Sprintf("rawc t=0 id=%d kind=new method=%%2Fv.S%%2FBD%d rev=%d win=65536 md=grpc-timeout=%s", r.id, r.r, d.rev(), []string{"-5S", "99999999H", "1n", "%2B5S", "5", "S", "123456789S", "0m", "5S", "10M", "1H", "100m"}[rng.Intn(12)])
 	}
 	return "probe"
 }
@@ -569,6 +583,8 @@ func (d *rawServerDriver) deviation(w *World) string {
 		return fmt.Sprintf("raws t=0 id=%d kind=close code=%d msg=again md=-", id, rng.Intn(17))
 	case 11: // zero messages and OK status on a unary method
 		return fmt.Sprintf("raws t=0 id=%d kind=close code=0 msg=~ md=-", id)
+	case 12: // an envelope announcing a huge message, then little data
+		return fmt.Sprintf("raws t=0 id=%d kind=msg size=%d len=10", id, []int{1 << 30, 3 << 30, 1 << 29}[rng.Intn(3)])
 	}
 	return "probe"
 }
